@@ -222,6 +222,13 @@ class Check(object):
             print("KNOWN-FINDING: property=%s %s [%s] (%d scenarios)" % (self.prop, k["what"], sig, k["count"]))
         for d in self.drift[:10]:
             print("SPEC-DRIFT: property=%s %s" % (self.prop, d))
+        if os.environ.get("VERIF_DEBUG"):
+            import collections, re as _re
+            grp = collections.Counter()
+            for sig, detail, path in self.violations:
+                grp[(_re.sub(r"[0-9]+", "#", sig)[:140], _re.sub(r"[-0-9.e+]+", "#", detail)[:160])] += 1
+            for (sg, dt), n in grp.most_common(60):
+                print("DEBUG %5d  %s\n             %s" % (n, sg, dt))
         seen = set()
         for sig, detail, path in self.violations:
             if path in seen:
